@@ -79,20 +79,20 @@ Print Assumptions C03_interpreter_tables_ok.
    are renderable (known categories; non-negative counts), the text rendered for it - escaped or not, with or without
    \s* padding and capture groups - parses, and the model's reading of the text accepts every string the pattern
    matches fragment by fragment. *)
-Theorem C03_rendered_text_matches : forall ct e full stripped tagged frags text s,
+Theorem C03_rendered_text_matches : forall out ct e full stripped tagged frags text s,
   In e extras8 ->
   forallb (frag_renderable e) frags = true ->
-  vrle2re false full e stripped tagged frags = Ok text ->
-  matches_frags ct false e frags s ->
+  vrle2re out full e stripped tagged frags = Ok text ->
+  matches_frags ct out e frags s ->
   re_model_fullmatch ct text s = Some true.
 Proof. exact rendered_text_matches. Qed.
 Print Assumptions C03_rendered_text_matches.
 
 (* ... and exactly those (no padding): the text denotes what the pattern denotes *)
-Theorem C03_rendered_text_exact : forall ct e full tagged frags text s,
+Theorem C03_rendered_text_exact : forall out ct e full tagged frags text s,
   In e extras8 -> forallb (frag_renderable e) frags = true ->
-  vrle2re false full e false tagged frags = Ok text ->
-  (re_model_fullmatch ct text s = Some true <-> matches_frags ct false e frags s).
+  vrle2re out full e false tagged frags = Ok text ->
+  (re_model_fullmatch ct text s = Some true <-> matches_frags ct out e frags s).
 Proof. exact rendered_text_exact. Qed.
 Print Assumptions C03_rendered_text_exact.
 
@@ -110,6 +110,41 @@ Theorem C03_batch_text_covers : forall ct o e stripped gt ex merged rex,
   forall s, In s (ex_strings ex) -> exists text, In text rex /\ re_model_fullmatch ct text s = Some true.
 Proof. exact batch_text_covers. Qed.
 Print Assumptions C03_batch_text_covers.
+
+(* The portable and grep dialects RETURN the patterns rendered again with the output categories (out = true: the
+   digit class becomes [0-9]); the two theorems above hold for that rendering too (out is universally quantified),
+   with the fragment semantics in which a digit is an ASCII digit.  So the returned expressions cover the working
+   examples exactly when the examples' decimal digits are ASCII ... *)
+Theorem C03_batch_portable_covers : forall ct o e stripped gt ex merged rex prex,
+  batch_extract ct o e stripped gt ex = Ok (merged, rex) ->
+  table_ok ct -> 1 <= z_max_strings_in_group o ->
+  batch_oracle_okb ct o e stripped gt ex = true ->
+  batch_renderable ct o e stripped gt ex = true ->
+  mapM (vrle2re true (o_full_escape o) e stripped (o_tag o)) merged = Ok prex ->
+  (forall s, In s (ex_strings ex) -> ascii_decimals ct s) ->
+  forall s, In s (ex_strings ex) -> exists text, In text prex /\ re_model_fullmatch ct text s = Some true.
+Proof. exact batch_portable_covers. Qed.
+Print Assumptions C03_batch_portable_covers.
+
+(* ... the portable text accepts nothing the internal one rejects ... *)
+Theorem C03_portable_text_within : forall ct e full tagged frags text s,
+  In e extras8 -> forallb (frag_renderable e) frags = true ->
+  (forall c, is_09 c = true -> ct_decimal ct c = true) ->
+  vrle2re true full e false tagged frags = Ok text ->
+  re_model_fullmatch ct text s = Some true -> matches_frags ct false e frags s.
+Proof. exact portable_text_within. Qed.
+Print Assumptions C03_portable_text_within.
+
+(* ... and without the hypothesis on digits the full statement is FALSE of the faithful model and of the code:
+   the witness is the known finding c03-portable-digits (U+0663 U+0664 under Python's character tables). *)
+Theorem C03_portable_refuted :
+  exists frags text s,
+    vrle2re true false [] false false frags = Ok text /\
+    forallb (frag_renderable []) frags = true /\
+    matches_frags py_chartab false [] frags s /\
+    re_model_fullmatch py_chartab text s = Some false.
+Proof. exact portable_gap_refuted. Qed.
+Print Assumptions C03_portable_refuted.
 
 (* the model's matcher decides its specification (a string is accepted iff it splits into runs each within its
    character set and count) *)
